@@ -421,12 +421,12 @@ def run_loss(case, res):
         res.distinct()
         res.outcome("lost-reply")
         prob = None
-        if got != want:
+        # an implementation may go on after the TimeoutError (then every row comes once, in order) or end the walk there
+        # (StopIteration / an error on the next call): what was yielded must be a prefix of the subtree either way
+        if got != want[: len(got)]:
             prob = "yielded %r over the whole walk, the agent holds %r" % ([g[0].replace(rb.oid_str(R), "R") if isinstance(g, tuple) else g for g in got][:12], [w[0].replace(rb.oid_str(R), "R") for w in want])
-        elif end != "stop":
-            prob = "walk ended with %s" % end
-        elif timeouts > 1:
-            prob = "%d time-outs for one lost reply" % timeouts
+        elif end == "stop" and timeouts == 0 and got != want:
+            prob = "walk ended normally after %d of %d rows although no call failed" % (len(got), len(want))
         if prob:
             res.count("violating_walks", 9)
             small = dict(case)
@@ -515,7 +515,13 @@ def run_interleave(case, res):
         res.distinct()
         pos = [0, 0]
         prob = None
+        dead = set()
         for idx, item in log:
+            if idx in dead:
+                continue
+            if isinstance(item, str) and item.startswith("raised "):
+                dead.add(idx)  # an implementation may refuse interleaved walks with an error; only yielded rows are judged
+                continue
             exp = want[pos[idx]] if pos[idx] < len(want) else "stop"
             if item != exp:
                 prob = "iterator %d yielded %r as its item #%d, its own walk has %r there" % (idx, item, pos[idx] + 1, exp)
